@@ -24,7 +24,7 @@ _NEGOPS = {ast.NotEq: ast.Eq, ast.IsNot: ast.Is, ast.NotIn: ast.In,
 
 
 class Path:
-    __slots__ = ("decisions", "env", "outcome", "value", "trace")
+    __slots__ = ("decisions", "env", "outcome", "value", "trace", "stmt")
 
     def __init__(self):
         self.decisions = {}     # atom text -> bool (in order of first use)
@@ -32,6 +32,7 @@ class Path:
         self.outcome = None     # "return" | "raise" | "fall" | "break" ...
         self.value = None       # ast expr (return value / raised exc)
         self.trace = []         # calls evaluated for effect, as text
+        self.stmt = None        # the statement the path ended at
 
     def get(self, name):
         v = self.env.get(name)
@@ -146,11 +147,13 @@ class Explorer:
                 p.trace.append(U(self.sym(st.value, p)))
             return
         if isinstance(st, ast.Return):
+            p.stmt = st
             p.outcome = "return"
             p.value = self.sym(st.value, p) if st.value is not None else \
                 ast.Constant(value=None)
             raise _Stop()
         if isinstance(st, ast.Raise):
+            p.stmt = st
             p.outcome = "raise"
             p.value = self.sym(st.exc, p) if st.exc is not None else None
             raise _Stop()
@@ -211,8 +214,13 @@ class Explorer:
             # item store into a local container: keyed by the container's
             # own name (not by the value it was bound to)
             p.env["@%s[%s]" % (t.value.id, U(self.sym(t.slice, p)))] = v
+        elif isinstance(t, ast.Attribute):
+            # attribute store: remembered under the text of the target (the
+            # object expression is resolved, the attribute itself is not
+            # replaced by what it held before)
+            p.env["@%s.%s" % (U(self.sym(_as_load(t.value), p)), t.attr)] = v
         else:
-            # attribute / subscript store: remembered under its text
+            # subscript store: remembered under its text
             p.env["@" + U(self.sym(_as_load(t), p))] = v
 
     # ----------------------------------------------------------- expressions
